@@ -1,4 +1,4 @@
-HOOK_COMMITS = ['6e462db', '4c6b7d2', '8782511', '820825c']
+HOOK_COMMITS = ['6e462db', '4c6b7d2', '8782511', '820825c', '9b24d1b']
 
 _K = 'Trusted: Kani/CBMC, Verus/z3/vstd, the std and dependency code below the functions under contract. '
 
@@ -28,13 +28,13 @@ TEXT = {
         'technique': 'Verus contracts on get_axis / view::Iter (representation invariant) + Kani harnesses on marginalize (bounded)',
     },
     'C05': {
-        'level_text': 'Verus proof (unbounded, every shape and dimension): index_sum_from_flat_unchecked(i) is the total allele count of cell i, the flat partner n-1-i is the mirror cell and the counts of a mirror pair add up to T (theorem_mirror_pair). Kani (bounded shapes incl. odd totals, length-1 axes; fill over all f64 bit patterns): every output cell is x[i]+x[mirror] / 0.5x[i]+0.5x[mirror] / fill exactly as stated, fold is idempotent, mass preserving and invariant under mirroring the input.',
+        'level_text': 'Verus proof (unbounded, every shape and dimension): index_sum_from_flat_unchecked(i) is the total allele count of cell i, the flat partner n-1-i is the mirror cell and the counts of a mirror pair add up to T (theorem_mirror_pair). Kani (bounded shapes incl. odd totals, length-1 axes; fill over all f64 bit patterns): every output cell is x[i]+x[mirror] / 0.5x[i]+0.5x[mirror] / fill exactly as stated, fold is idempotent, mass preserving and invariant under mirroring the input; the four --fill keywords of the CLI map to NaN, 0, -1, +inf (complete).',
         'design_ref': 'DESIGN.md 5/C05',
         'level_note': _K + 'Shape::elements assumed in the Verus unit; the wiring of Folded::from_spectrum is bounded-checked on integer-valued cells.',
         'technique': 'Verus loop invariant + mixed-radix lemmas; Kani harnesses on Spectrum::fold (bounded)',
     },
     'C06': {
-        'level_text': 'Bounded stand-ins only (floating point; symbolic f64 cells do not finish under CBMC): KING, R0, R1 equal the stated ratios on one asymmetric integer 3x3 table; S, sum, pi_xy equal their definitions exactly on an integer-valued 3x4 spectrum; Watterson theta and pi (3, 4, 5 chromosomes), f2 and Hudson Fst (3x4), f3 (2x3x3), f4 (2x3x2x2) equal independently written defining sums on one concrete table each up to 1e-9. Tajima D and Fu-Li D (sqrt, exp/ln) and the genotype-level reading are not decided.',
+        'level_text': 'Bounded stand-ins only (floating point; symbolic f64 cells do not finish under CBMC): KING, R0, R1 equal the stated ratios on one asymmetric integer 3x3 table; S, sum, pi_xy equal their definitions exactly on an integer-valued 3x4 spectrum; Watterson theta and pi (3, 4, 5 chromosomes), f2 and Hudson Fst (3x4), f3 (2x3x3), f4 (2x3x2x2) equal independently written defining sums on one concrete table each up to 1e-9; Statistic::calculate in the bin crate calls the statistic its name says, on the normalised spectrum exactly for f2, f3, f4, Fst (one concrete table per dimensionality). Tajima D and Fu-Li D (sqrt, exp/ln) and the genotype-level reading are not decided.',
         'design_ref': 'DESIGN.md 5/C06',
         'level_note': _K + 'every harness is one concrete table (bounded, not a proof); 2 of 14 statistics and the genotype-level reading are not decided; binomial and powi are stubbed by a table / repeated multiplication.',
         'technique': 'Kani harnesses executing the real statistics on concrete tables against independently written definitions (bounded)',
